@@ -199,6 +199,15 @@ func (fr *Frame) appendModel(site ssa.Instruction, c *ssa.CallCommon, st *State,
 	}
 	vc.set(st, ev, vc.hsort[ev], fmt.Sprintf("(ite %s (store %s (s_base %s) %s) (store %s %s %s))", fits, E, s, rowFit, E, nb, rowGrow))
 	r := vc.def("append", "Slice", fmt.Sprintf("(ite %s (mk_slice (s_base %s) (s_off %s) %s (s_cap %s)) (mk_slice %s 0 %s %s))", fits, s, s, newLen, s, nb, newLen, ncap))
+	if isByteSlice(c.Args[0].Type()) && vc.useSeq && isByteSlice(arg.Type()) {
+		// content of the result (instantiated sequence fact): old content ++ appended bytes
+		pre := &State{epoch: st.epoch, H: map[string]string{}}
+		for k, v := range st.H {
+			pre.H[k] = v
+		}
+		pre.H[ev] = E
+		vc.assume(reach, sEq(vc.viewOf(st, r), fmt.Sprintf("(seq_cat %s %s)", vc.viewOf(pre, s), vc.viewOf(pre, t))))
+	}
 	fr.noteAlloc(st, reach, sIte(fits, "0", ncap), site.Pos())
 	return r
 }
